@@ -34,6 +34,7 @@ type C09Case struct {
 
 type C09Viol struct {
 	Case   C09Case      `json:"case"`
+	Stage  []C09Case    `json:"stage,omitempty"` // earlier calls of the same process that may have set the stage: the last accepted size, the predecessor
 	Class  string       `json:"class"`
 	Detail string       `json:"detail"`
 	Out    plan.Outcome `json:"outcome"`
@@ -54,6 +55,13 @@ type C09Result struct {
 	SampleOut   []string       `json:"sample_outcomes,omitempty"`
 	DeviceReads int            `json:"device_reads"`
 	Digest      uint64         `json:"digest"`
+	Verdicts    []C09Verdict   `json:"verdicts,omitempty"` // explicit jobs: one per case
+}
+
+type C09Verdict struct {
+	Class  string       `json:"class,omitempty"`
+	Detail string       `json:"detail,omitempty"`
+	Out    plan.Outcome `json:"outcome"`
 }
 
 func stateDev(state string, seed uint64) *plan.Dev {
@@ -209,8 +217,16 @@ func RunC09(job *C09Job, d *dev.Dev, cases []C09Case) *C09Result {
 	rng := plan.NewRand(job.Seed)
 	seen := map[string]struct{}{}
 	ctr := 0
+	// every distinct accepted (kind, size, language) call made so far in this process: what could have
+	// warmed a cache or a pool before a later call misbehaves; attached to violations as replay stage
+	var accepted []C09Case
+	acceptedSeen := map[string]bool{}
+	var prev *C09Case
 	one := func(c C09Case) {
 		o, class, detail := RunC09Case(&c, d)
+		if job.Kind == "explicit" {
+			res.Verdicts = append(res.Verdicts, C09Verdict{Class: class, Detail: detail, Out: o})
+		}
 		res.Cases++
 		for _, ch := range []byte(o.Out + "|" + o.Err + "|" + o.Panic + "|" + class) {
 			res.Digest = fnv(res.Digest, uint64(ch))
@@ -241,7 +257,20 @@ func RunC09(job *C09Job, d *dev.Dev, cases []C09Case) *C09Result {
 		if class != "" {
 			res.ViolCount++
 			if len(res.Viol) < 8 {
-				res.Viol = append(res.Viol, C09Viol{Case: c, Class: class, Detail: detail, Out: o})
+				v := C09Viol{Case: c, Class: class, Detail: detail, Out: o}
+				v.Stage = append(v.Stage, accepted...)
+				if prev != nil {
+					v.Stage = append(v.Stage, *prev)
+				}
+				res.Viol = append(res.Viol, v)
+			}
+		}
+		cc := c
+		prev = &cc
+		if class == "" && o.IsNil && o.Panic == "" && ((c.Kind == "count" && ref.ValidWordCount(c.Count)) || (c.Kind == "ent" && ref.ValidEntLen(c.Len) && !c.Nil)) {
+			if k := fmt.Sprintf("%s/%d/%d/%d", c.Kind, c.Count, c.Len, c.Lang); !acceptedSeen[k] {
+				acceptedSeen[k] = true
+				accepted = append(accepted, cc)
 			}
 		}
 		if len(res.Samples) < 6 && ctr%1009 == 0 {
